@@ -84,6 +84,22 @@ class Rewriter(ast.NodeTransformer):
             return ast.copy_location(new, node)
         return node
 
+    def visit_Assign(self, node):
+        self.generic_visit(node)
+        # d[k] = v  ->  _RT_.setitem_v(v, d, k): a dictionary of the code
+        # under test may receive a symbolic key
+        if (len(node.targets) == 1 and
+                isinstance(node.targets[0], ast.Subscript) and
+                not isinstance(node.targets[0].slice, ast.Slice) and
+                not (isinstance(node.targets[0].slice, ast.Tuple) and any(
+                    isinstance(e, ast.Slice)
+                    for e in node.targets[0].slice.elts))):
+            t = node.targets[0]
+            call = ast.Call(func=_rt('setitem_v'),
+                            args=[node.value, t.value, t.slice], keywords=[])
+            return ast.copy_location(ast.Expr(value=call), node)
+        return node
+
     def visit_Compare(self, node):
         self.generic_visit(node)
         if len(node.ops) == 1 and isinstance(node.ops[0], (ast.In, ast.NotIn)):
